@@ -124,6 +124,8 @@ class Lane(LaneBase):
                 bad.append(f'{where}: max_forward_lag = {g.max_forward_lag}')
             if g.max_backward_lag != (-min(neg) if neg else None):
                 bad.append(f'{where}: max_backward_lag = {g.max_backward_lag}')
+            if g.maxlag != (-min(neg) if neg else None):
+                bad.append(f'{where}: maxlag (the documented alias of max_backward_lag) = {g.maxlag}')
         except Exception as e:  # noqa: BLE001
             bad.append(f'{where}: a lookup raised {type(e).__name__}: {e}')
         return bad
